@@ -100,12 +100,19 @@ def clist(items, ty=None) -> str:
 # translator + Coq build
 # ----------------------------------------------------------------------------
 
+GEN_MODULE_FILES = {"gen_dispatch": "Dispatch", "gen_sinks": "Sinks", "gen_mutation": "Mutation",
+                    "gen_quirks": "StackTemplates", "gen_books": "BookFacts"}
+
+
 def regenerate():
-    """Regenerate coq/Gen from REPO's working tree.  Returns (ok, message, tables)."""
+    """Regenerate coq/Gen from REPO's working tree.  Returns (ok, message, tables).
+    tables["_failed"] maps each translator section that could not read the source to the
+    reason; such a section keeps its last readable output (see gen_tables.generate)."""
     import gen_tables
 
     try:
         tables, changed = gen_tables.generate(REPO, GEN)
+        failed = tables["_failed"]
         import gen_known
         extra = gen_known.generate(ROOT, GEN)
         # per-property generators register themselves here
@@ -114,13 +121,63 @@ def regenerate():
                 mod = __import__(modname)
             except ImportError:
                 continue
-            tables[modname], ch = mod.generate(REPO, GEN)
-            extra += ch
-        return True, f"regenerated (changed: {changed + extra})", tables
+            try:
+                tables[modname], ch = mod.generate(REPO, GEN)
+                extra += ch
+            except Exception as e:  # noqa: BLE001
+                msg = str(e) if isinstance(e, gen_tables.TranslatorError) else f"crashed: {type(e).__name__}: {e}"
+                if not os.path.exists(os.path.join(GEN, GEN_MODULE_FILES[modname] + ".v")):
+                    raise gen_tables.TranslatorError(f"{modname}: {msg} (and no earlier output to fall back on)")
+                failed[modname] = msg
+                tables[modname] = None
+        note = f"regenerated (changed: {changed + extra})"
+        if failed:
+            note += "; UNREADABLE sections kept from the last readable tree: " + "; ".join(f"{k}: {v}" for k, v in failed.items())
+        return True, note, tables
     except gen_tables.TranslatorError as e:
         return False, f"translator (fail-closed): {e}", None
     except Exception as e:  # the source no longer parses, a file is missing, ...
         return False, f"translator crashed: {type(e).__name__}: {e}", None
+
+
+def section_owns(section, module, const):
+    import gen_tables
+    if section in gen_tables.SECTION_OWNS:
+        return gen_tables.SECTION_OWNS[section](module, const)
+    return GEN_MODULE_FILES.get(section) == module
+
+
+GEN_MODULES = ("Codepage", "ParserConsts", "Elements", "Yaml", "TemplateShapes", "Known",
+               "Dispatch", "Sinks", "Mutation", "StackTemplates", "BookFacts")
+
+
+def theorem_gen_dependencies(prop):
+    """For each statement of Properties/<prop>.v, the constants of coq/Gen its proof term
+    depends on (Coq's own `Print All Dependencies`).  Returns {theorem: set((module, const))}
+    or None when Coq cannot be asked."""
+    src = os.path.join(COQ, "Properties", prop + ".v")
+    with open(src, encoding="utf-8") as f:
+        names = re.findall(r"^\s*(?:Theorem|Lemma|Corollary|Example)\s+([A-Za-z_][A-Za-z_0-9']*)", f.read(), re.M)
+    os.makedirs(BUILD, exist_ok=True)
+    deps = {}
+    for nm in names:
+        path = os.path.join(BUILD, f"deps_{prop}_{os.getpid()}.v")
+        with open(path, "w", encoding="utf-8") as f:
+            f.write(f"From Vy Require Import Properties.{prop}.\nPrint All Dependencies {nm}.\n")
+        rc, out = sh(["coqc", "-q", "-Q", COQ, "Vy", path], timeout=600, cwd=BUILD)
+        for ext in (".v", ".vo", ".vok", ".vos", ".glob"):
+            try:
+                os.remove(path[:-2] + ext)
+            except OSError:
+                pass
+        if rc != 0:
+            return None
+        found = set()
+        for m in re.finditer(r"^(?:Vy\.Gen\.)?([A-Z][A-Za-z]*)\.([A-Za-z_][A-Za-z_0-9']*) :", out, re.M):
+            if m.group(1) in GEN_MODULES:
+                found.add((m.group(1), m.group(2)))
+        deps[nm] = found
+    return deps
 
 
 def _project_files():
@@ -620,6 +677,33 @@ def run_check(prop, tier, seed):
                     env.proof_broken(f"Properties/{prop}.v no longer compiles", out2)
                 closed, axioms = parse_assumptions(out2)
                 env.note("assumption_reports", {"closed_under_global_context": closed, "axioms": axioms})
+            failed = (tables or {}).get("_failed") or {}
+            if failed:
+                # some translator sections could not read the source and kept their last readable
+                # output.  A theorem whose proof term mentions a constant of such a section was
+                # re-checked against values that may no longer be the code's: it is unsupported.
+                # Theorems that do not mention them stand as proved.
+                deps = theorem_gen_dependencies(prop) if env.coq_ok else None
+                hit = {}
+                for sec, why in failed.items():
+                    if deps is None:
+                        hit[sec] = ["(dependencies could not be computed)"]
+                        continue
+                    thms = sorted(t for t, cs in deps.items() if any(section_owns(sec, m, c) for m, c in cs))
+                    if thms:
+                        hit[sec] = thms
+                env.note("translator_sections_unreadable", failed)
+                env.note("theorems_depending_on_unreadable_sections", hit)
+                for sec, thms in hit.items():
+                    env.coq_ok = False
+                    env.proof_broken(f"translator section '{sec}'",
+                                     f"{failed[sec]}\nThe section kept the values of the last readable tree; theorems whose proofs depend on them: {', '.join(thms)}")
+                if hit:
+                    env.discharged = 0
+                else:
+                    env.assume("translator sections that could not read the rewritten source (" + ", ".join(sorted(failed))
+                               + ") define no constant that any theorem of this property depends on (Print All Dependencies); "
+                               "they kept the values of the last readable tree, which the correspondence still compares with the implementation")
     # the property module does correspondence + oracle search
     try:
         if tables is None:
